@@ -251,6 +251,37 @@ type vC17Sim struct {
 	outage   atomic.Bool
 	closing  atomic.Bool
 	inflight atomic.Int64
+
+	busyMu    sync.Mutex
+	busyN     int
+	busyStart time.Duration
+	busyEnd   time.Duration
+	busyMax   time.Duration // longest period during which some lookup or RPC was in flight
+}
+
+func (s *vC17Sim) enter() {
+	s.inflight.Add(1)
+	s.busyMu.Lock()
+	if s.busyN == 0 {
+		if now := s.now(); now != s.busyEnd || s.busyStart < 0 {
+			s.busyStart = now // a new busy period (back-to-back operations continue the old one)
+		}
+	}
+	s.busyN++
+	s.busyMu.Unlock()
+}
+
+func (s *vC17Sim) leave() {
+	s.busyMu.Lock()
+	s.busyN--
+	if s.busyN == 0 {
+		s.busyEnd = s.now()
+		if d := s.busyEnd - s.busyStart; d > s.busyMax {
+			s.busyMax = d
+		}
+	}
+	s.busyMu.Unlock()
+	s.inflight.Add(-1)
 }
 
 func vC17NewSim(c *vh.Case, r, deadPct int, routerLat, sendLat time.Duration, members []int32) *vC17Sim {
@@ -317,8 +348,8 @@ func (s *vC17Sim) members() []int32 {
 
 // GetClosestPeers implements KadClosestPeersRouter.
 func (s *vC17Sim) GetClosestPeers(ctx context.Context, k string) ([]peer.ID, error) {
-	s.inflight.Add(1)
-	defer s.inflight.Add(-1)
+	s.enter()
+	defer s.leave()
 	if d := s.lat(time.Duration(s.routerLat.Load()), k, 0); d > 0 {
 		time.Sleep(d)
 	}
@@ -347,8 +378,8 @@ func (s *vC17Sim) SendRequest(ctx context.Context, p peer.ID, m *pb.Message) (*p
 
 // SendMessage implements pb.MessageSender: the simulated recipient.
 func (s *vC17Sim) SendMessage(ctx context.Context, p peer.ID, m *pb.Message) error {
-	s.inflight.Add(1)
-	defer s.inflight.Add(-1)
+	s.enter()
+	defer s.leave()
 	key := string(m.GetKey())
 	pi, known := s.pool.peerIdx[string(p)]
 	if d := s.lat(time.Duration(s.sendLat.Load()), key, pi); d > 0 {
@@ -656,28 +687,26 @@ func (s *vC17Sim) describe(k int32, lo, hi time.Duration) string {
 			next = sd.t
 		}
 	}
-	fmt.Fprintf(&sb, "; last send before +%v, first after +%v (-1 = none)", last.Round(time.Second), next.Round(time.Second))
+	fmtT := func(d time.Duration) string {
+		if d < 0 {
+			return "none"
+		}
+		return "+" + d.Round(time.Second).String()
+	}
+	fmt.Fprintf(&sb, "; last ADD_PROVIDER of the key before the window: %s, first after: %s", fmtT(last), fmtT(next))
 	return sb.String()
 }
 
-// batchTime measures the longest burst of ADD_PROVIDERs of one key (sends less than a minute apart).
+// batchTime is the measured batch time: the longest period during which lookups / RPCs of the
+// provider were continuously in flight (a region waiting for a worker, being explored and being sent
+// lies inside one such period), capped so that a misbehaving provider cannot widen its own slack.
 func (s *vC17Sim) batchTime() time.Duration {
-	var max time.Duration
-	for _, sends := range s.sends {
-		st := 0
-		for i := 1; i <= len(sends); i++ {
-			if i == len(sends) || sends[i].t-sends[i-1].t > time.Minute {
-				if d := sends[i-1].t - sends[st].t; d > max {
-					max = d
-				}
-				st = i
-			}
-		}
+	s.busyMu.Lock()
+	defer s.busyMu.Unlock()
+	if s.busyMax > vC17BatchCap {
+		return vC17BatchCap
 	}
-	if max > vC17BatchCap {
-		max = vC17BatchCap
-	}
-	return max
+	return s.busyMax
 }
 
 type vC17Verdict struct {
@@ -823,10 +852,13 @@ func (s *vC17Sim) evaluate(end time.Duration, windows bool) vC17Verdict {
 				}
 				for _, x := range xs {
 					v.windowsJudged++
-					ok, any := s.complete(k, x, x+W)
+					ok, _ := s.complete(k, x, x+W)
 					if ok {
 						continue
 					}
+					// was the key advertised at all inside the window (not counting the tail of a burst that
+					// began before the window)? yes: wrong recipients; no: a gap in the schedule
+					_, any := s.complete(k, x+slack, x+W)
 					if any {
 						report(&v.allocFail, "reprovide-window", "alloc/not-r-nearest", "kept since +%v: advertised inside the window, but never to all healthy peers among its r nearest: %s", sg.s.Round(time.Second), s.describe(k, x, x+W))
 					} else {
